@@ -465,3 +465,4 @@ func GetFileActualSize(path string) int64 {
 
 // DataUsed reports the allocated bytes of a data blob (hook).
 var DataUsed func(d interface{}) int64
+
